@@ -135,6 +135,14 @@ pub fn gen_flat_doc(rng: &mut Rng, size: usize, hermes: bool) -> Value {
     if rng.chance(1, 5) {
         let hdr: &[u8] = *rng.pick(&[&b")]}'\n"[..], &b")]}garbage\r\n"[..], &b"}\n"[..], &b"'x\n"[..]]);
         d["junk"] = json!([hdr.iter().map(|b| json!(*b)).collect::<Vec<_>>()]);
+        if rng.chance(1, 8) {
+            // a long junk line ending next to a multiple of 8192 (the library's read buffer)
+            let end = 8192 - 2 + rng.below(4) as usize;
+            let mut h: Vec<u8> = b")]}'".to_vec();
+            while h.len() < end { h.push(b'g'); }
+            if rng.chance(1, 3) { h.push(b'\n'); } else { h.extend(b"\r\n"); }
+            d["junk"] = json!([h.iter().map(|b| json!(*b)).collect::<Vec<_>>()]);
+        }
     }
     let mut order: Vec<&str> = DEFAULT_ORDER.to_vec();
     if rng.chance(1, 2) { shuffle(rng, &mut order); }
